@@ -192,6 +192,7 @@ def main():
     ap.add_argument('--files', default='*')
     ap.add_argument('--suite', action='store_true')
     ap.add_argument('--reuse', action='store_true', help='reuse the static results already in --out (same seed/sample)')
+    ap.add_argument('--recheck', action='store_true', help='re-run the current rules on the survivors recorded in --out')
     ap.add_argument('--out', default=os.path.join(VERIF, 'sweep', 'results.json'))
     a = ap.parse_args()
     from sa.check import load_prop
@@ -232,6 +233,38 @@ def main():
     print(f'{len(cands)} candidate sites, {len(jobs)} mutants sampled', flush=True)
     t0 = time.time()
     res = {}
+    if a.recheck:
+        prevd = json.load(open(a.out))
+        sig = lambda r: (r['file'], r['kind'], r['old'], r['new'])          # noqa: E731
+        bysig = {sig(r): r for r in prevd['mutants']}
+        prev = {}
+        a.sample = 10 ** 9
+        jobs, meta = [], {}
+        for pth, kind, node, t, parents, text in cands:
+            new_text = apply_mutant(text, t, parents, None, kind, node)
+            if new_text is None:
+                continue
+            old_line = text.split('\n')[node.lineno - 1].strip()
+            st = stmt_of(node, parents)
+            new_lines = new_text.split('\n')[st.lineno - 1:st.lineno + 2]
+            mm = {'file': pth, 'line': node.lineno, 'kind': kind, 'old': old_line[:160],
+                  'new': ' / '.join(x.strip() for x in new_lines)[:200]}
+            r = bysig.get(sig(mm))
+            if r is not None and r['id'] not in prev:
+                prev[r['id']] = r
+                meta[r['id']] = mm
+                jobs.append((r['id'], pth, new_text, base))
+        todo = [j for j in jobs if not prev[j[0]]['reported_by'] and '1010 passed' in prev[j[0]].get('suite', '')
+                and not prev[j[0]].get('triage')]
+        print(f'{len(todo)} survivors still match the current tree', flush=True)
+        with ProcessPoolExecutor(max_workers=16) as ex:
+            for mid, hits in ex.map(check_one, todo, chunksize=2):
+                prev[mid]['reported_now'] = hits
+                if not hits:
+                    print('SURVIVOR', mid, meta[mid]['file'], meta[mid]['line'], meta[mid]['kind'], '|', meta[mid]['old'], '=>', meta[mid]['new'], flush=True)
+        with open(a.out, 'w') as fh:
+            json.dump(prevd, fh, indent=1)
+        return
     if a.reuse and os.path.exists(a.out):
         prev = {r['id']: r for r in json.load(open(a.out))['mutants']}
         if all(mid in prev and prev[mid]['file'] == meta[mid]['file'] and prev[mid]['line'] == meta[mid]['line']
